@@ -53,9 +53,14 @@ def _one(prop: str, tier: str, a) -> int:
     extra = {}
     code = 0
     if tier == "thorough" and replay_key is None:
+        from .report import THOROUGH_EXTRAS
         from .variants import run_matrix
 
         code, extra = run_matrix(prop)
+        for fn in THOROUGH_EXTRAS.get(prop, []):
+            c2, e2 = fn()
+            code = max(code, c2)
+            extra.update(e2)
     rc = run_property(prop, tier, write=not a.no_write, extra=extra, replay_key=replay_key)
     return max(rc, code) if rc != 1 else 1
 
